@@ -671,8 +671,9 @@ class Engine(object):
         self.model = None
         return v.as_signed_long()
 
-    def fork_classes(self, t, classes):
-        """classes: list of (z3 condition over t) partitioning the feasible values; returns index"""
+    def fork_classes(self, t, nclasses, cond_of, class_of_value=None):
+        """cond_of(k): z3 condition over t for class k (the classes partition the feasible values); returns k.
+        On replay only the recorded class's condition is built."""
         i = self.pos
         self.pos += 1
         if i < len(self.prefix):
@@ -681,12 +682,28 @@ class Engine(object):
                 raise NonDeterminism('replay diverged at class fork %d' % i)
         else:
             feas = []
-            for k, c in enumerate(classes):
-                r = self._check(c)
-                if r == 'sat':
+            if class_of_value is not None:
+                # model-guided: one query per feasible class (+1) instead of one per class
+                self.s.push()
+                while True:
+                    r = self._check()
+                    if r != 'sat':
+                        if r == 'unknown':
+                            self.unexplored.append('class unknown')
+                        break
+                    v = self.s.model().eval(t, model_completion=True).as_signed_long()
+                    k = class_of_value(v)
                     feas.append(k)
-                elif r == 'unknown':
-                    self.unexplored.append('class unknown')
+                    self.s.add(z3.Not(cond_of(k)))
+                self.s.pop()
+                feas.sort()
+            else:
+                for k in range(nclasses):
+                    r = self._check(cond_of(k))
+                    if r == 'sat':
+                        feas.append(k)
+                    elif r == 'unknown':
+                        self.unexplored.append('class unknown')
             self.model = None
             if not feas:
                 raise PathAbort('class fork: infeasible')
@@ -694,8 +711,9 @@ class Engine(object):
                 self.work.append(self.prefix[:i] + [('k', t, k)])
             k = feas[0]
             self.prefix.append(('k', t, k))
-        self.s.add(classes[k])
-        self.pc.append(classes[k])
+        c = cond_of(k)
+        self.s.add(c)
+        self.pc.append(c)
         self.model = None
         return k
 
